@@ -68,6 +68,9 @@ def gamma_obj(o: dict):
     if k == "matrix":
         m = np.array([[unlimb(x) for x in row] for row in o["m"]])
         return np.asfortranarray(m) if (len(o["m"]) + len(o["m"][0])) % 2 else m
+    if k == "array":
+        m = np.array([unlimb(x) for x in o["v"]]).reshape(tuple(o["shape"]))
+        return np.asfortranarray(m) if sum(o["shape"]) % 2 else m
     raise ValueError(k)
 
 
@@ -85,6 +88,8 @@ def alpha_obj(x) -> dict:
         return {"kind": "ktensor", "w": [limbs(v) for v in x.weights], "U": [[[limbs(v) for v in row] for row in f] for f in x.factor_matrices]}
     if isinstance(x, np.ndarray) and x.ndim == 2:
         return {"kind": "matrix", "m": [[limbs(v) for v in row] for row in x]}
+    if isinstance(x, np.ndarray) and x.ndim >= 1:
+        return {"kind": "array", "shape": [int(s) for s in x.shape], "v": [limbs(v) for v in x.flatten(order="C")]}
     return {"kind": "other:" + type(x).__name__}
 
 
@@ -126,6 +131,9 @@ def write_tokens(path: str, toks: List[list]) -> None:
         for _ in range(nz):
             lines.append(" ".join(fmt(t) for t in toks[i:i + n + 1]))
             i += n + 1
+    elif kw == "matrix" and toks[1][1] != 2:
+        n, sh, i = header(0)
+        lines += [fmt(t) for t in toks[i:]]
     elif kw == "matrix":
         n, sh, i = header(0)
         for r in range(sh[0]):
